@@ -33,7 +33,21 @@ type sgen struct {
 	r      *rand.Rand
 	seq    int
 	noSize bool // no size / fixed properties (streams that need every element column to be read)
+	// imported: the run passes an imported proto file (importedProto) — cross-cell structs of its message .Prize,
+	// whose fields are declared in another order than their numbers, may be generated
+	imported bool
 }
+
+// importedProto: a hand-written proto file handed to the generators through ProtoFiles
+const importedProto = `syntax = "proto3";
+package protoconf;
+import "tableau/protobuf/tableau.proto";
+message Prize {
+  string name = 3 [(tableau.field).name = "Name"];
+  uint32 id = 1 [(tableau.field).name = "ID"];
+  int32 num = 2 [(tableau.field).name = "Num"];
+}
+`
 
 var sgScalars = []string{"int32", "uint32", "int64", "uint64", "string", "bool", "float", "double", "datetime", "duration", "fraction", "comparator", "enum<.FruitType>", "sint32", "bytes"}
 
@@ -70,6 +84,9 @@ func (g *sgen) node(depth int) *snode {
 	case 14:
 		// a cross-cell struct of a predefined type: from the struct type sheet (Reward) or a message nested in the
 		// union type sheet (Target.PVP) of the base book; the column prefix is the field's own name, not the type's
+		if g.imported && g.r.Intn(3) == 0 {
+			return &snode{kind: "predefStruct", name: g.vname(), sname: ".Prize"}
+		}
 		if g.r.Intn(2) == 0 {
 			return &snode{kind: "predefStruct", name: g.vname(), sname: ".Reward"}
 		}
@@ -142,6 +159,9 @@ func (n *snode) columns(prefix string) []hcol {
 	case "incellStruct":
 		return []hcol{{prefix + n.name, "{int32 ID, string Name}" + n.sname}}
 	case "predefStruct":
+		if n.sname == ".Prize" {
+			return []hcol{{prefix + n.name + "Name", "{.Prize}string"}, {prefix + n.name + "ID", "uint32"}, {prefix + n.name + "Num", "int32"}}
+		}
 		if n.sname == ".Reward" {
 			return []hcol{{prefix + n.name + "ID", "{.Reward}uint32"}, {prefix + n.name + "Num", "int32"}}
 		}
@@ -267,6 +287,9 @@ func (g *sgen) cells(n *snode, uniq int) []string {
 		}
 		return []string{strconv.Itoa(r.Intn(100)) + ",n" + strconv.Itoa(r.Intn(10))}
 	case "predefStruct":
+		if n.sname == ".Prize" {
+			return []string{"p" + strconv.Itoa(r.Intn(50)), strconv.Itoa(1 + r.Intn(500)), strconv.Itoa(r.Intn(9000))}
+		}
 		if r.Intn(5) == 0 {
 			return []string{"", ""}
 		}
